@@ -55,6 +55,14 @@ pub struct StrictCfg {
     workers: u32,
     server: StrictServer,
     db: StrictDb,
+    /// keys whose names start like the variable that selects the profile (`PX_PROFILE`): ordinary keys all the same
+    profile_dir: String,
+    profiler: StrictProfiler,
+}
+#[derive(Debug, Clone, Deserialize, Serialize)]
+#[serde(deny_unknown_fields)]
+pub struct StrictProfiler {
+    rate: u32,
 }
 #[derive(Debug, Clone, Deserialize, Serialize)]
 #[serde(deny_unknown_fields)]
@@ -85,6 +93,13 @@ pub struct PlainCfg {
     workers: u32,
     server: PlainServer,
     db: PlainDb,
+    /// keys whose names start like the variable that selects the profile (`PX_PROFILE`): ordinary keys all the same
+    profile_dir: String,
+    profiler: PlainProfiler,
+}
+#[derive(Debug, Clone, Deserialize, Serialize)]
+pub struct PlainProfiler {
+    rate: u32,
 }
 #[derive(Debug, Clone, Deserialize, Serialize)]
 pub struct PlainServer {
@@ -117,6 +132,13 @@ pub struct LenientCfg {
     workers: u32,
     server: LenientServer,
     db: LenientDb,
+    /// keys whose names start like the variable that selects the profile (`PX_PROFILE`): ordinary keys all the same
+    profile_dir: String,
+    profiler: LenientProfiler,
+}
+#[derive(Debug, Clone, Deserialize, Serialize)]
+pub struct LenientProfiler {
+    rate: u32,
 }
 #[derive(Debug, Clone, Deserialize, Serialize)]
 pub struct LenientServer {
@@ -153,11 +175,22 @@ fn load<T: serde::de::DeserializeOwned + Serialize, P: ConfigProfile>(
     profile: Option<P>,
 ) -> serde_json::Value {
     let mut loader = ConfigLoader::<P>::new();
-    if let Some(d) = dir {
-        loader = loader.configuration_dir(d);
-    }
-    if let Some(p) = profile {
-        loader = loader.profile(p);
+    // the two builder calls commute: `CFGLOAD_PROFILE_FIRST=1` (set by the checker for half of the cases) makes the
+    // harness call `.profile(..)` before `.configuration_dir(..)`
+    if std::env::var_os("CFGLOAD_PROFILE_FIRST").is_some() {
+        if let Some(p) = profile {
+            loader = loader.profile(p);
+        }
+        if let Some(d) = dir {
+            loader = loader.configuration_dir(d);
+        }
+    } else {
+        if let Some(d) = dir {
+            loader = loader.configuration_dir(d);
+        }
+        if let Some(p) = profile {
+            loader = loader.profile(p);
+        }
     }
     match loader.load::<T>() {
         Ok(v) => serde_json::json!({"ok": serde_json::to_value(&v).unwrap()}),
